@@ -68,8 +68,9 @@ impl<'n> TryFromNode<'n> for RustNode {
 
 pub fn collect_namespaces_on_node<'n>(node: Node<'n, 'n>, doc: &mut RustDocument) {
     for ns in node.namespaces() {
-        if let Some(abbreviation) = ns.name() {
-            doc.add_namespace_reference(abbreviation, ns.uri());
+        match ns.name() {
+            Some(abbreviation) => doc.add_namespace_reference(abbreviation, ns.uri()),
+            None => doc.add_default_namespace(ns.uri()),
         }
     }
 }
